@@ -159,7 +159,7 @@ def fam_reduce_ragged(rng):
     T = gen_pure(rng, rng.randint(0, 3))
     depth, dtype = R.list_depth(T)
     red = rng.choice(REDUCERS)
-    vals = [L.gen_value(rng, T) for _ in range(rng.randint(0, 4))]
+    vals = [L.gen_value(rng, T) for _ in range(L.toplen(rng, 0, 4))]
     isarg = red in ("argmin", "argmax")
     if red in ("min", "max", "argmin", "argmax") and "nan" in repr(vals):
         return None
@@ -186,7 +186,7 @@ def fam_reduce_rect(rng):
     T = gen_rect(rng, rng.randint(0, 3))
     depth, dtype = R.list_depth(T)
     red = rng.choice(REDUCERS)
-    vals = [L.gen_value(rng, T) for _ in range(rng.randint(0, 4))]
+    vals = [L.gen_value(rng, T) for _ in range(L.toplen(rng, 0, 4))]
     if red in ("min", "max", "argmin", "argmax") and "nan" in repr(vals):
         return None
     axis = rng.randint(-depth, depth - 1)
@@ -201,7 +201,7 @@ def fam_reduce_rect(rng):
 def fam_tolist(rng):
     """C02 base: every physical encoding of a value reads back as that value (length, getitem_at, fields, scalars)"""
     T = L.gen_type(rng, rng.randint(0, 3), allow_union=True)
-    vals = [L.gen_value(rng, T) for _ in range(rng.randint(0, 4))]
+    vals = [L.gen_value(rng, T) for _ in range(L.toplen(rng, 0, 4))]
     lay = L.Enc(rng).encode(vals, T)
     return Case("tolist " + lay.tokens(), expect_value(vals, "to_list", cmp=L.same, want_valid=False), {"value": vals, "type": T})
 
@@ -209,7 +209,7 @@ def fam_tolist(rng):
 def fam_valid_accept(rng):
     """C11 (no false error): a layout obeying every documented rule passes the validity check"""
     T = L.gen_type(rng, rng.randint(0, 3), allow_union=True)
-    vals = [L.gen_value(rng, T) for _ in range(rng.randint(0, 4))]
+    vals = [L.gen_value(rng, T) for _ in range(L.toplen(rng, 0, 4))]
     lay = L.Enc(rng).encode(vals, T)
     assert L.valid(lay)
 
@@ -245,7 +245,7 @@ def has_record(T):
 
 def _struct_case(rng, regular=0.25, maxdepth=3):
     T = gen_pure(rng, rng.randint(0, maxdepth), regular=regular, leafrec=0.2)
-    vals = [L.gen_value(rng, T) for _ in range(rng.randint(0, 4))]
+    vals = [L.gen_value(rng, T) for _ in range(L.toplen(rng, 0, 4))]
     lay = L.Enc(rng).encode(vals, T)
     return T, vals, lay, struct_depth(T)
 
@@ -277,7 +277,7 @@ def fam_flatten(rng):
                    ("list", ("option", ("num", "int32"))), ("list", ("list", ("num", "bool")))]
         rng.shuffle(members)
         T = ("union", members[:rng.randint(2, 3)])
-        vals = [L.gen_value(rng, T) for _ in range(rng.randint(0, 5))]
+        vals = [L.gen_value(rng, T) for _ in range(L.toplen(rng, 0, 5))]
         lay = L.Enc(rng).encode(vals, T)
         ref = R.flatten(vals, 1)
         return Case("flatten 1 %s" % lay.tokens(), expect_value(ref, "flatten(axis=1) of the union array %r" % (vals,)), {"value": vals, "type": T})
@@ -323,7 +323,7 @@ def _string_sort_case(rng):
     T = ("list", ("string", kind))
     if rng.random() < 0.3:
         T = ("list", T)
-    vals = [L.gen_value(rng, T, maxlen=4) for _ in range(rng.randint(0, 4))]
+    vals = [L.gen_value(rng, T, maxlen=4) for _ in range(L.toplen(rng, 0, 4))]
     lay = L.Enc(rng, allow_indexed=False).encode(vals, T)
     return T, vals, lay
 
@@ -353,7 +353,7 @@ def fam_sort(rng):
         return Case("sort -1 %d %d %s" % (asc, stable, lay.tokens()),
                     expect_value(ref, "sort(axis=-1, ascending=%s) of the strings %r" % (asc, vals), cmp=L.same), {"value": vals, "type": T})
     T = gen_pure(rng, rng.randint(0, 3), regular=0.0, optlist=SORT_OPTLIST, optleaf=SORT_OPTLEAF)
-    vals = [L.gen_value(rng, T) for _ in range(rng.randint(0, 4))]
+    vals = [L.gen_value(rng, T) for _ in range(L.toplen(rng, 0, 4))]
     lay = L.Enc(rng).encode(vals, T)
     depth = struct_depth(T)
     posaxis = depth - 1
@@ -393,7 +393,7 @@ def fam_argsort(rng):
             return common_checks(r)
         return Case("argsort -1 %d %d %s" % (asc, stable, lay.tokens()), checks, {"value": vals, "type": T})
     T = gen_pure(rng, rng.randint(0, 3), regular=0.0, optlist=SORT_OPTLIST, optleaf=SORT_OPTLEAF)
-    vals = [L.gen_value(rng, T) for _ in range(rng.randint(0, 4))]
+    vals = [L.gen_value(rng, T) for _ in range(L.toplen(rng, 0, 4))]
     if "None" in repr(vals) and not any(ch.isdigit() or ch in "TF" for ch in repr(vals).replace("None", "")):
         return None
     lay = L.Enc(rng).encode(vals, T)
@@ -436,7 +436,7 @@ def fam_argsort(rng):
 def fam_carry_range(rng):
     """C02/C01 base: carry(index) selects x[i] for each i; getitem_range(a, b) is Python's x[a:b]; getitem_at(i) is x[i]"""
     T = L.gen_type(rng, rng.randint(0, 2), allow_union=True)
-    vals = [L.gen_value(rng, T) for _ in range(rng.randint(0, 5))]
+    vals = [L.gen_value(rng, T) for _ in range(L.toplen(rng, 0, 5))]
     lay = L.Enc(rng).encode(vals, T)
     n = len(vals)
     k = rng.random()
@@ -527,7 +527,7 @@ def fam_getitem_basic(rng):
     indexing selects level by level (out-of-range integers raise)"""
     usefld = rng.random() < 0.3
     T = gen_pure(rng, rng.randint(0, 3), regular=0.25, leafrec=1.0 if usefld else 0.0)
-    vals = [L.gen_value(rng, T) for _ in range(rng.randint(0, 4))]
+    vals = [L.gen_value(rng, T) for _ in range(L.toplen(rng, 0, 4))]
     lay = L.Enc(rng).encode(vals, T)
     levels = R._levels(("list", T))
     items = []
@@ -639,7 +639,7 @@ def _jag_type(depth, boolean, none_p):
 def fam_getitem_jagged(rng):
     """C01: a jagged integer or boolean array (optionally with missing entries) selects list by list"""
     T = gen_pure(rng, rng.randint(1, 3), regular=0.0, optlist=0.0)
-    vals = [L.gen_value(rng, T) for _ in range(rng.randint(0, 4))]
+    vals = [L.gen_value(rng, T) for _ in range(L.toplen(rng, 0, 4))]
     lay = L.Enc(rng).encode(vals, T)
     levels = R._levels(("list", T))
     depth = rng.randint(1, levels - 1) if levels >= 2 else None
@@ -816,7 +816,7 @@ def fam_concat(rng):
     anyopt = any(has_option(t) for t in Ts)       # KF-C08-merge-option-with-indexed: IndexedArray nodes only without options
     arrays, lays = [], []
     for T in Ts:
-        vals = [L.gen_value(rng, T) for _ in range(rng.randint(0, 3))]
+        vals = [L.gen_value(rng, T) for _ in range(L.toplen(rng, 0, 3))]
         arrays.append(vals)
         TT = permute_fields(T) if (mode == "same" and rng.random() < 0.5) else T
         vv = vals
@@ -866,7 +866,7 @@ def fam_astype(rng):
     numpy.astype) and leaves lists, missing values and lengths untouched"""
     import numpy as np
     T = gen_pure(rng, rng.randint(0, 2), regular=0.2)
-    vals = [L.gen_value(rng, T) for _ in range(rng.randint(0, 4))]
+    vals = [L.gen_value(rng, T) for _ in range(L.toplen(rng, 0, 4))]
     if "nan" in repr(vals) or "inf" in repr(vals):
         return None
     lay = L.Enc(rng).encode(vals, T)
@@ -893,7 +893,7 @@ def fam_simplify_union(rng):
                ("option", ("num", "int64")), ("list", ("list", ("num", "uint8")))]
     rng.shuffle(members)
     T = ("union", members[:rng.randint(2, 3)])
-    vals = [L.gen_value(rng, T) for _ in range(rng.randint(0, 6))]
+    vals = [L.gen_value(rng, T) for _ in range(L.toplen(rng, 0, 6))]
     lay = L.Enc(rng, allow_indexed=False).encode(vals, T)      # KF-C08-merge-option-with-indexed
     if not isinstance(lay, L.UN):
         return None
@@ -913,7 +913,7 @@ def fam_fields(rng):
         T = ("list", T) if rng.random() < 0.7 else ("option", ("list", T))
     if rng.random() < 0.3:
         T = ("option", T) if T[0] != "option" else T
-    vals = [L.gen_value(rng, T) for _ in range(rng.randint(0, 4))]
+    vals = [L.gen_value(rng, T) for _ in range(L.toplen(rng, 0, 4))]
     lay = L.Enc(rng).encode(vals, T)
     if rng.random() < 0.5:
         key = rng.choice(keys)
@@ -937,7 +937,7 @@ def fam_broadcast(rng):
     inner = gen_pure(rng, rng.randint(0, 1), regular=0.2)
     size1 = rng.random() < 0.4
     T = ("regular", inner, 1) if size1 else (("regular", inner, rng.choice([0, 2, 3])) if rng.random() < 0.3 else ("list", inner))
-    vals = [L.gen_value(rng, T) for _ in range(rng.randint(0, 4))]
+    vals = [L.gen_value(rng, T) for _ in range(L.toplen(rng, 0, 4))]
     lay = L.Enc(rng, allow_indexed=False, allow_ndnumpy=False).encode(vals, T)
     if not isinstance(lay, (L.LO, L.LA, L.RG)):
         return None
@@ -973,7 +973,7 @@ def fam_fillna(rng):
     is_none (bytemask) is True exactly at the None positions"""
     T = gen_pure(rng, rng.randint(0, 2), regular=0.15, optleaf=0.3)
     T = ("option", T[1] if T[0] == "option" else T)
-    vals = [L.gen_value(rng, T) for _ in range(rng.randint(0, 5))]
+    vals = [L.gen_value(rng, T) for _ in range(L.toplen(rng, 0, 5))]
     lay = L.Enc(rng).encode(vals, T)
     if isinstance(lay, (L.IX, L.UM)):      # UM: KF-C09-fillna-unmasked-recurses
         return None
@@ -1092,7 +1092,7 @@ def fam_types(rng):
     equals the type obtained from the array, a range slice has the same type, an element taken out of a list-typed array
     has the inner type, and depth / field queries agree with the value"""
     T = L.gen_type(rng, rng.randint(0, 3), allow_union=True)
-    vals = [L.gen_value(rng, T) for _ in range(rng.randint(0, 4))]
+    vals = [L.gen_value(rng, T) for _ in range(L.toplen(rng, 0, 4))]
     lay = L.Enc(rng).encode(vals, T)
     n = len(vals)
     a = rng.choice([None] + list(range(-n - 1, n + 2)))
@@ -1148,7 +1148,7 @@ def fam_field_slices(rng):
             break
     else:
         return None
-    vals = [L.gen_value(rng, T) for _ in range(rng.randint(0, 4))]
+    vals = [L.gen_value(rng, T) for _ in range(L.toplen(rng, 0, 4))]
     lay = L.Enc(rng).encode(vals, T)
     levels = R._levels(("list", T))
     items = []
@@ -1199,7 +1199,10 @@ def fam_convert(rng):
     """C02/C09: conversions among encodings keep the value: toListOffsetArray64, toRegularArray, option-encoding
     conversions, simplify_optiontype, shallow_simplify, deep_copy, project (drops exactly the missing values), bytemask"""
     T = L.gen_type(rng, rng.randint(0, 2), allow_union=False)
-    vals = [L.gen_value(rng, T) for _ in range(rng.randint(0, 5))]
+    n = L.toplen(rng, 0, 5)
+    if T[0] == "option" and rng.random() < 0.5:
+        n = rng.randint(8, 20)       # every bit position of a bit mask, and a second mask byte
+    vals = [L.gen_value(rng, T) for _ in range(n)]
     lay = L.Enc(rng).encode(vals, T)
     cands = ["deep_copy", "shallow_simplify"]
     if isinstance(lay, (L.LO, L.LA, L.RG)):
@@ -1212,6 +1215,8 @@ def fam_convert(rng):
         cands.append("toIndexedOptionArray64")
     if isinstance(lay, (L.BT, L.UM)):
         cands.append("toByteMaskedArray")
+    if isinstance(lay, L.BT):
+        cands += ["bytemask", "bytemask", "toIndexedOptionArray64"]
     if isinstance(lay, L.IX):
         cands += ["project", "simplify_optiontype"]
     if isinstance(lay, L.NP) and len(lay.shape) >= 1:
@@ -1318,7 +1323,7 @@ def _mutate_invalid(rng, lay):
 def _gen_invalid(rng):
     for _ in range(20):
         T = L.gen_type(rng, rng.randint(0, 3), allow_union=True)
-        vals = [L.gen_value(rng, T) for _ in range(rng.randint(1, 4))]
+        vals = [L.gen_value(rng, T) for _ in range(L.toplen(rng, 1, 4))]
         lay = L.Enc(rng).encode(vals, T)
         what = _mutate_invalid(rng, lay)
         if what is not None:
@@ -1556,7 +1561,7 @@ def fam_virtual_enforce(rng):
     """C18: with length and form declared no query of length/depth/form invokes the generator; a generated array that is
     shorter than the declared length, or of another form than declared, is refused with an error once data are needed"""
     T = gen_pure(rng, rng.randint(0, 2))
-    vals = [L.gen_value(rng, T) for _ in range(rng.randint(0, 4))]
+    vals = [L.gen_value(rng, T) for _ in range(L.toplen(rng, 0, 4))]
     lay = L.Enc(rng).encode(vals, T)
     keep = rng.choice([-2, -1, 0])
     mode = rng.choice(["lazy", "short", "form"])
